@@ -7,6 +7,8 @@ from core import Prop, q, qv, qm, cnat, cerr
 from p_C04 import kmat_lit, base_vec
 import gen_sys as gs
 import lp_cert
+import exactqp as xq
+from p_C04 import exact_model, fobj
 
 
 def extent_lp(Ap, bq, lb, ub, k, sign):
@@ -58,6 +60,8 @@ class C06(Prop):
             cases.append({"sys": {k_: (v.tolist() if isinstance(v, np.ndarray) else v) for k_, v in sys.items()},
                           "b": b.tolist(), "x": x.tolist(), "tk": tk, "nsp": nsp, "error": "ignore" if tk == "outside-ignore" else "raise",
                           "entry": rng.choice(["estimator", "function"]),
+                          "extra": ([gs.rel_capture(sys, np.array([lb[i] + (ub[i] - lb[i]) * rng.randint(3, 13) / 16 for i in range(nn)])).tolist()
+                                     for _ in range(rng.randint(1, 2))] if (rng.random() < 0.4 and not tk.startswith("outside")) else []),
                           "kind": "%s/surplus%d/K-%s/lb-%s/%s" % (tk, surplus, sys["Kkind"], "zero" if not np.any(lb) else "pos", "spaced" if nsp else "ends")})
         return cases
 
@@ -70,7 +74,16 @@ class C06(Prop):
         kw = {"error": case["error"]}
         if case["nsp"]:
             kw["n"] = case["nsp"]
-        if case["entry"] == "estimator":
+        if case.get("extra"):
+            # several targets in one call; ours comes first, the others are in-gamut decoys
+            Bm = np.vstack([B[None], np.asarray(case["extra"], dtype=float)])
+            if case["entry"] == "estimator":
+                r = gs.make_estimator(sys).range_of_solutions(Bm, **kw)
+            else:
+                r = dreye.range_of_solutions(Bm, sys["A"], sys["lb"], sys["ub"], K=(None if sys["K"] is None else np.atleast_1d(sys["K"])),
+                                             baseline=sys["baseline"], **kw)
+            r = tuple(np.asarray(v)[0] for v in r)
+        elif case["entry"] == "estimator":
             est = gs.make_estimator(sys)
             r = est.range_of_solutions(B[None], **kw)
             r = tuple(np.asarray(v)[0] for v in r)
@@ -108,7 +121,13 @@ class C06(Prop):
                 hi, lam2 = extent_lp(Ap, bq, lb, ub, k, -1.0)
                 los.append(lo); his.append(hi)
                 ylo.append(None if lam is None else -lam); yhi.append(None if lam2 is None else -lam2)
-        case["_prep"] = dict(sys=sys, Ap=Ap, bq=bq, expect=expect, sep=(y if y is not None else np.zeros(m)), mu=(gap / 2 if outside else 0.0),
+        x0, s_ = [0.0] * sys["n"], Fr(0)
+        if expect == 2:
+            _, _, M0, e0 = exact_model(sys, [1.0] * m, case["b"])
+            xe, exact = xq.box_ls(M0, e0, [float(v) for v in lb], [float(v) for v in ub], [float(v) for v in (lb + ub) / 2])
+            if exact:
+                x0, s_ = xe, xq.sqrt_floor(fobj(M0, e0, xe))
+        case["_prep"] = dict(sys=sys, Ap=Ap, bq=bq, expect=expect, x0=x0, s=s_, sep=(y if y is not None else np.zeros(m)), mu=(gap / 2 if outside else 0.0),
                              los=los, his=his, ylo=ylo, yhi=yhi)
         return case["_prep"]
 
@@ -122,10 +141,10 @@ class C06(Prop):
         zeros = [[0.0] * m for _ in range(n)]
         ylo = [(v.tolist() if v is not None else [0.0] * m) for v in p["ylo"]] if p["ylo"] else zeros
         yhi = [(v.tolist() if v is not None else [0.0] * m) for v in p["yhi"]] if p["yhi"] else zeros
-        return "(Range.Build_case %s %s %s %s %s %s %s %s %s %s %s %s %s %s %s %s)" % (
+        return "(Range.Build_case %s %s %s %s %s %s %s %s %s %s %s %s %s %s %s %s %s %s)" % (
             qm(sys["A"].tolist()), cnat(n), qv(sys["lb"].tolist()), qv(sys["ub"].tolist()), kmat_lit(sys["K"], m),
             qv(base_vec(sys["baseline"], m).tolist()), qv(case["b"]), impl, qm(out.get("Xs", [])),
-            qm(ylo), qm(yhi), cnat(p["expect"]), qv(p["sep"].tolist()), q(p["mu"]), q(1e-9), q(1e-6))
+            qm(ylo), qm(yhi), cnat(p["expect"]), qv(p["sep"].tolist()), q(p["mu"]), qv(p["x0"]), q(p["s"]), q(1e-9), q(1e-6))
 
     def spec_violation(self, case, out):
         p = self.prep(case)
@@ -144,6 +163,10 @@ class C06(Prop):
         if p["expect"] == 2:
             if np.max(np.abs(mn - mx)) > 1e-9 or np.any(mn < lb - 1e-2 * (ub - lb)) or np.any(mn > ub + 1e-2 * (ub - lb)):
                 return {"what": "error='ignore' on an out-of-gamut target did not return one in-bound best fit as both ends", "class": "ignore-contract"}
+            res = float(np.linalg.norm(p["Ap"] @ mn - p["bq"])); best = float(p["s"])
+            if res > best + 2e-2:
+                return {"what": "error='ignore': the point returned as both ends has capture error %.6g but the best in-bound fit achieves %.6g" % (res, best),
+                        "class": "ignore-not-best-fit"}
             return None
         if np.any(mn > mx + 1e-9):
             k = int(np.argmax(mn - mx))
